@@ -737,6 +737,24 @@ fn stream_pairs(thorough: bool, seed: u64, out: &mut dyn Write) {
         let a = render(&mut r, &s.tokens(), 0);
         let b = render(&mut r, &t.tokens(), 2);
         writeln!(out, "pair {} {}", hex(&a), hex(&b)).unwrap();
+        // the same pair at the two other entry points: the language-identifier part alone, and the extensions alone
+        // (an extension string as `into_parts` / the locale! macro hand it over: it starts with a separator)
+        let (sa, sb) = (s.tokens(), t.tokens());
+        let (na, nb) = (1 + s.script.iter().count() + s.region.iter().count() + s.variants.len(), 1 + t.script.iter().count() + t.region.iter().count() + t.variants.len());
+        if i % 3 == 0 {
+            let a = render(&mut r, &sa[..na], 0);
+            let b = render(&mut r, &sb[..nb], 2);
+            writeln!(out, "lipair {} {}", hex(&a), hex(&b)).unwrap();
+        }
+        if sa.len() > na && sb.len() > nb {
+            let mut ea = vec![vec![]];
+            ea.extend(sa[na..].iter().cloned());
+            let mut eb = vec![vec![]];
+            eb.extend(sb[nb..].iter().cloned());
+            let a = render(&mut r, &ea, 0);
+            let b = render(&mut r, &eb, 2);
+            writeln!(out, "extpair {} {}", hex(&a), hex(&b)).unwrap();
+        }
     }
 }
 
@@ -988,6 +1006,9 @@ fn stream_rel(thorough: bool, seed: u64, out: &mut dyn Write) {
     let ids = product_ids();
     let small: Vec<&String> = ids.iter().step_by(3).collect();
     for a in &small {
+        for k in 0..8 {
+            writeln!(out, "route {} {}", hex(a.as_bytes()), k).unwrap();
+        }
         for b in &small {
             writeln!(out, "rel {} {}", hex(a.as_bytes()), hex(b.as_bytes())).unwrap();
         }
@@ -1023,6 +1044,10 @@ fn stream_rel(thorough: bool, seed: u64, out: &mut dyn Write) {
         let x = render(&mut r, &a.tokens(), 2);
         let y = render(&mut r, &b.tokens(), 2);
         writeln!(out, "rel {} {}", hex(&x), hex(&y)).unwrap();
+        if i % 4 == 0 {
+            // the same value along a second route through the safe API
+            writeln!(out, "route {} {}", hex(&x), (i / 4) % 8).unwrap();
+        }
         if i % 5 == 0 {
             let li: Vec<Vec<u8>> = a.tokens().into_iter().take(1 + r.below(3)).collect();
             let s = render(&mut r, &li, 0);
